@@ -1,1 +1,6 @@
-pub fn hello() {}
+//! Reference model for the rust-elf checks. Does NOT depend on the crate under test.
+pub mod hashes;
+pub mod image;
+pub mod layout;
+pub mod notes;
+pub mod symver;
